@@ -146,6 +146,16 @@ def case_fallback(ctx, d2):
                     d2.fail('%s.%s' % (cname, mname), 'fallback-shape', 'the case fallback is not (flip only when the exact label is absent)', f, n)
         if not found:
             d2.fail('%s.%s' % (cname, mname), 'no-fallback-guard', 'phase label is remapped without testing that the exact label is absent', f, f.node)
+    # distinct source phases can fold onto one target row (l and L -> l): the fold must be additive into a blank indexer
+    f = prog.method('MaterialIndexer', 'to_material_indexer', rel=IX)
+    st = [n for n in walk_no_nested(f.node) if isinstance(n, (ast.Assign, ast.AugAssign)) and any(
+        isinstance(t, ast.Subscript) and src(t.value) == 'material_indexer' for t in (n.targets if isinstance(n, ast.Assign) else [n.target]))]
+    blank = [n for n in walk_no_nested(f.node) if isinstance(n, ast.Assign) and src(n.targets[0]) == 'material_indexer' and '.blank(' in src(n.value)]
+    if len(st) == 1 and isinstance(st[0], ast.AugAssign) and isinstance(st[0].op, ast.Add) and blank:
+        d2.ok('MaterialIndexer.to_material_indexer', 'rows folding onto the same target phase are added into a blank indexer', f, st[0])
+    else:
+        d2.fail('MaterialIndexer.to_material_indexer', 'fold-not-additive', 'source phases that fold onto the same target row overwrite each other instead of being added '
+                '(or the target does not start blank)', f, st[0] if st else f.node)
     f = prog.method('PhaseIndexer', '__new__', rel=PH)
     ok3 = False
     for n in walk_no_nested(f.node):
